@@ -75,8 +75,9 @@ theorem meanPass_get (rows cols : Nat) (excludes : List F) (g : Rows F) (y x : I
   simp [Rows.get, meanPass, h1, h2]
 
 /-- the generated fact about the wrapper `mean()`: the float raster is fed through the one-pass function
-    `passes` times (`for _ in range(passes): out = _mean(out, excludes)`), the loop sits in `mean()` itself and the
-    iterated value is what is returned.  (A wrapper that hands `passes` to a backend instead -- to run the passes
+    `passes` times (`for _ in range(passes): out = _mean(out, excludes)`), the loop sits in `mean()` itself, the
+    iterated value is what is returned, and the glue `_mean` calls the backend function selected for the raster exactly
+    once per call, with (data, excludes), outside any control flow.  (A wrapper that hands `passes` to a backend instead -- to run the passes
     inside one `map_overlap`, say -- makes this `false`, and `mean_passes` below no longer checks.) -/
 theorem mean_wrapper_iterates : mean_iterates_passes = true := rfl
 
